@@ -57,7 +57,9 @@ class IncludeNode(Node):
 
     def __str__(self) -> str:
         assert isinstance(self.token, TagToken)
-        var = f" with {self.var}" if self.var else ""
+        var = ""
+        if self.var:
+            var = f" for {self.var}" if self.loop else f" with {self.var}"
         if self.alias:
             var += f" as {self.alias}"
         if self.args:
